@@ -13,11 +13,13 @@ CONFIGS = {
 }
 
 
-def _cfg(path, spec, case, maxfail, idle_yields=True, serial_excl=True, invs=(), prop=None, view=True):
+def _cfg(path, spec, case, maxfail, idle_yields=True, serial_excl=True, invs=(), prop=None, view=True,
+         log_points="{}", max_logs=0):
     with open(path, "w") as f:
         f.write(f"SPECIFICATION {spec}\nCONSTANTS\n  Cfg <- {case}\n  MaxFail = {maxfail}\n"
                 f"  IdleYields = {'TRUE' if idle_yields else 'FALSE'}\n"
-                f"  SerialExclusive = {'TRUE' if serial_excl else 'FALSE'}\n")
+                f"  SerialExclusive = {'TRUE' if serial_excl else 'FALSE'}\n"
+                f"  LogPoints = {log_points}\n  MaxLogs = {max_logs}\n")
         if invs:
             f.write("INVARIANTS " + " ".join(invs) + "\n")
         if prop:
@@ -73,4 +75,36 @@ def model_check(tier):
                  "meaning": "TLC finds the idle-spin lasso of the pre-fix design (F2, C04)"})
     res = {"configs": configs, "asis": asis}
     cache_put("runner_mc", tier, res)
+    return res
+
+
+def model_check_tracing(tier):
+    """Runner.tla with the tracing forwarder: logs of before hooks and steps of two
+    concurrently running scenarios (C20)."""
+    cached = cache_get("runner_mc_tracing", tier)
+    if cached:
+        return cached
+    configs = []
+    maxlogs = 3 if tier == "quick" else 4
+    cfg = os.path.join(WORK, "MC_Runner_log2.cfg")
+    _cfg(cfg, "Spec", "Log2", 1, invs=("NoViolation",), log_points='{"before", "step"}', max_logs=maxlogs)
+    r = tlc("MC_Runner.tla", cfg, workers=8, timeout=3000, tag="mcrlog")
+    require_ok(r, "MC_Runner Log2")
+    if r["violated"]:
+        raise ToolError("MC_Runner Log2: the design violates the C20 rules of the monitor (specification defect):\n"
+                        + "\n".join(r["out"].splitlines()[-60:]))
+    configs.append({"cfg": f"MC_Runner[Log2,MaxFail=1,LogPoints={{before,step}},MaxLogs={maxlogs}]",
+                    "states": r.get("states", 0), "distinct": r.get("distinct", 0),
+                    "depth": r.get("depth", 0), "wall_s": r["wall_s"],
+                    "invariants": ["NoViolation (incl. the C20 rules of RunnerObs)"]})
+    log(f"[runner-mc] log2: {r.get('distinct')} distinct, {r['wall_s']}s")
+    cfg = os.path.join(WORK, "MC_Runner_log2_after.cfg")
+    _cfg(cfg, "Spec", "Log2", 0, invs=("NoViolation",), log_points='{"after"}', max_logs=1)
+    r = tlc("MC_Runner.tla", cfg, workers=4, timeout=900, tag="mcrloga")
+    if not r["violated"]:
+        raise ToolError("vacuity guard: after-hook logs no longer violate the C20 rule (F7) in the model")
+    asis = [{"switch": 'LogPoints={"after"}', "violated": r["violated"],
+             "meaning": "the design delivers after-hook logs before Hook(After)::Started (known finding F7)"}]
+    res = {"configs": configs, "asis": asis}
+    cache_put("runner_mc_tracing", tier, res)
     return res
